@@ -1,4 +1,5 @@
 import Zc.Proofs.SurviveHost
+import Zc.Proofs.SurviveComp
 import Zc.Props.C02
 /-! # C15 — a running instance survives any datagram stream
 
@@ -171,6 +172,90 @@ theorem C15_history_partial {β : Type} {D : Down σ ω} {I : σ → Prop} (hD :
     (∃ s' out, run D other (State.init d0) bs = .ok (s', out) ∧ I s'.down ∧ LInv s') ∨
       run D other (State.init d0) bs = .error .keyError :=
   run_ok hD sendOK_safe other hO bs (State.init d0) h0 (LInv.init d0)
+
+/-! ### `DownOK` discharged for the composition of the other properties' models
+
+`Survive.Comp.down` instantiates the downstream with the record manager + cache of C05/C06
+(`Zc.ingest` over `Cache.ops`), the browser callbacks of C04 (`Browser.updateRecords`/`complete`), the
+registry and answer computation of C03 (`Zc.respond`), `_add_answers_additionals` (`packetize`) and
+the text ↔ wire conversion of names.  What remains uninterpreted is `Survive.Comp.Rest`: the listeners
+that are not browsers (lookups, user listeners, scheduler bookkeeping, `notify_all`), the
+`_QueryResponse` routing with the question history, and `async_add` of the two queues. -/
+
+section composed
+open Zc.Survive.Comp
+variable (lower : String → String) (possible : String → List String) (ettl : Nat)
+variable {ρ ω' : Type} (R : Rest ρ ω') (Iρ : ρ → Prop)
+
+/-- **No `KeyError` out of the cache, for any records** (C05/C06 composed): on a cache that refines a
+duplicate-free store `async_updates_from_response` returns and the cache refines such a store again.
+The `_remove_key` sites (`del cache[key][record]` for a record that is not there) are unreachable. -/
+theorem C15_cache_total {c : Cache} (h : ∃ s, Refines lower c s ∧ Flat.WF lower s) (now : Ms) (recs : List Rec) :
+    ∃ out, Zc.ingest lower (Cache.ops lower) c now recs = .ok out ∧ ∃ s', Refines lower out.cache s' ∧ Flat.WF lower s' :=
+  cache_ingest_ok lower h now recs
+
+/-- **The three component obligations of `DownOK` hold of the composition**, given the three residual
+assumptions about `Rest` (`ListenersOK`, `RouteOK`, `QueueOK`).  Discharged here: the record manager
+loop and every cache operation (C05/C06), the browsers' callbacks (C04; the invariant also
+re-establishes C04's hypothesis `pending = []`), the registry lookups and answer computation (C03:
+`respond_ok`, `warmed_inv`), packetising, and — through `QASafe` from the registry's data invariant
+`RegSafe` — the encoder. -/
+theorem C15_down_composed (hL : ListenersOK R Iρ) (hR : RouteOK R Iρ) (hQ : QueueOK R Iρ) :
+    DownOK (Comp.down lower possible ettl R) (CInv lower ettl Iρ) QASafe :=
+  comp_downOK lower possible ettl R Iρ hL hR hQ
+
+/-- **Survival, one block, composed** (`_partial`: assumes only `ListenersOK`, `RouteOK`, `QueueOK`
+and the invariant `CInv` — cache refines a duplicate-free store, C03's `IndexInv`, the data
+invariant `RegSafe`, no browser callback pending, `Iρ` of the residue). -/
+theorem C15_total_composed_partial (hL : ListenersOK R Iρ) (hR : RouteOK R Iρ) (hQ : QueueOK R Iρ)
+    (s : State (CState ρ)) (hI : CInv lower ettl Iρ s.down) (hLi : LInv s)
+    (data : Bytes) (addr : Addr) (port : Nat) (now : Ms) (draw : Nat) :
+    ∃ s' out tag, recv (Comp.down lower possible ettl R) s data addr port now draw = .ok (s', out, tag) ∧
+      CInv lower ettl Iρ s'.down ∧ LInv s' :=
+  C15_total_partial (C15_down_composed lower possible ettl R Iρ hL hR hQ) s hI hLi data addr port now draw
+
+theorem C15_timer_composed_partial (hL : ListenersOK R Iρ) (hR : RouteOK R Iρ) (hQ : QueueOK R Iρ)
+    (s : State (CState ρ)) (hI : CInv lower ettl Iρ s.down) (hLi : LInv s) (addr : Addr) (t : TcTimer)
+    (ht : alGet addr s.timers = some t) :
+    ∃ s' out tag, tcFire (Comp.down lower possible ettl R) s addr = .ok (s', out, tag) ∧
+      CInv lower ettl Iρ s'.down ∧ LInv s' :=
+  C15_timer_partial (C15_down_composed lower possible ettl R Iρ hL hR hQ) s hI hLi addr t ht
+
+/-- **Survival, every history, composed** (`_partial`): from any composite state satisfying `CInv`
+(e.g. the initial one, `CInv.init`), every interleaving of arrivals, deferred-query timers and other
+blocks that preserve `CInv` (registration API, browser start/stop, cache purge, queue timers …) runs
+without an exception. -/
+theorem C15_history_composed_partial {β : Type} (hL : ListenersOK R Iρ) (hR : RouteOK R Iρ) (hQ : QueueOK R Iρ)
+    (other : CState ρ → β → Except PyExc (CState ρ × List (COut ω')))
+    (hO : ∀ d b, CInv lower ettl Iρ d → ∃ d' o, other d b = .ok (d', o) ∧ CInv lower ettl Iρ d')
+    (d0 : CState ρ) (h0 : CInv lower ettl Iρ d0) (bs : List (Survive.Block β)) :
+    (∃ s' out, run (Comp.down lower possible ettl R) other (State.init d0) bs = .ok (s', out) ∧
+        CInv lower ettl Iρ s'.down ∧ LInv s') ∨
+      run (Comp.down lower possible ettl R) other (State.init d0) bs = .error .keyError :=
+  C15_history_partial (C15_down_composed lower possible ettl R Iρ hL hR hQ) other hO d0 h0 bs
+
+/-- the residual assumptions are satisfiable (a residue with no further listeners, a router that
+selects nothing for the block, a queue that swallows; a router that hands the whole answer map to the
+unicast reply satisfies `RouteOK` as well), and the initial composite state satisfies `CInv` -/
+def exRest : Rest Unit String where
+  listeners r _ _ _ _ _ := .ok (r, [])
+  route r _ _ _ _ := .ok (r, ⟨[], [], [], []⟩)
+  enqueue r _ _ := (r, [])
+
+example : ListenersOK exRest (fun _ => True) ∧ RouteOK exRest (fun _ => True) ∧ QueueOK exRest (fun _ => True) :=
+  ⟨fun r0 _ _ _ _ _ _ => ⟨r0, [], rfl, trivial⟩,
+   fun r0 _ _ _ _ _ => ⟨r0, _, rfl, trivial, by intro x hx; simp [dictRecords] at hx⟩,
+   fun _ _ _ _ => trivial⟩
+
+/-- a router that hands the whole answer map to the unicast reply -/
+def exRestAll : Rest Unit String := { exRest with route := fun r _ _ _ dict => .ok (r, ⟨dict, [], [], []⟩) }
+
+example : RouteOK exRestAll (fun _ => True) :=
+  fun r0 _ _ _ _ _ => ⟨r0, _, rfl, trivial, by intro x hx; simpa [dictRecords, exRestAll] using hx⟩
+
+example : CInv lower ettl (fun _ : Unit => True) ⟨{}, [], [], {}, none, ()⟩ := CInv.init lower ettl _ () trivial
+
+end composed
 
 /-- the full-strength statement of DESIGN §7 (no hypotheses on the downstream components): not proved
 here — it needs the C03/C05/C06/C04/C12 models composed into one `Down` instance. -/
